@@ -52,7 +52,31 @@ def last_field_owner(pl):
     return None, None
 
 
-def find_effects(body, extra_calls=None):
+_HAS_EFFECT = {}
+
+
+def helper_effects(facts, fn_id, depth=0):
+    """effect names performed (transitively, depth <= 2) by a repo helper that is not itself in the table"""
+    if facts is None or fn_id in EFFECT_CALLS or depth > 2:
+        return set()
+    key = (id(facts), fn_id)
+    if key in _HAS_EFFECT:
+        return _HAS_EFFECT[key]
+    _HAS_EFFECT[key] = set()
+    body = facts.bodies.get(fn_id)
+    out = set()
+    if body is not None and body.crate == "nomt" and body.kind != "Closure":
+        for (n, b, i, s) in find_effects(body, None, None):
+            out.add(n)
+        for b, t in body.calls():
+            c = t.get("callee") or ""
+            if c in facts.bodies and c not in EFFECT_CALLS and c != fn_id:
+                out |= helper_effects(facts, c, depth + 1)
+    _HAS_EFFECT[key] = out
+    return out
+
+
+def find_effects(body, extra_calls=None, facts=None):
     """returns list of (name, bb, idx, site)"""
     out = []
     calls = dict(EFFECT_CALLS)
@@ -75,6 +99,9 @@ def find_effects(body, extra_calls=None):
             c = t.get("callee")
             if c in calls:
                 out.append((calls[c], b, len(body.stmts(b)), t.get("ln")))
+            elif facts is not None and c and c in facts.bodies and (c.startswith("nomt::") or c.startswith("<nomt::")):
+                for n in sorted(helper_effects(facts, c)):
+                    out.append(("%s via %s" % (n, c.split("::")[-1]), b, len(body.stmts(b)), t.get("ln")))
             # Option::take / mem::replace on a protected field is also a mutation
             if c and (c.endswith("::take") or c.endswith("mem::replace") or c.endswith("::insert") or c.endswith("::replace")) and t["args"]:
                 for r in trace(body, t["args"][0]):
@@ -283,6 +310,31 @@ GUARDS = {
     "truncate_some": g_truncate_some,
 }
 
+def guards_via_helper(body, facts, gname):
+    """the guard sits in a repo helper whose failure is propagated with `?`: the branch on the helper's
+    result is the guard (the helper must fail on the guard's refusal edge)"""
+    out = []
+    for b, t in body.calls():
+        c = t.get("callee") or ""
+        if c not in facts.bodies or c in EFFECT_CALLS or not (c.startswith("nomt::") or c.startswith("<nomt::")):
+            continue
+        H = facts.bodies[c]
+        if H.kind == "Closure" or H.n > 400:
+            continue
+        try:
+            inner = GUARDS[gname](H, facts)
+        except Exception:
+            inner = []
+        for (sw_h, desc, site) in inner:
+            okr = set(H.ok_returns())
+            refusing = [s_ for s_ in set(H.succ(sw_h)) if not (H.reachable([s_], H.ok_removed()) & okr)]
+            if not refusing:
+                continue
+            for sw in switches_on_call(body, b):
+                out.append((sw, "%s in helper %s" % (desc, c.split("::", 1)[1]), t.get("ln")))
+    return out
+
+
 ALL = None
 # row: function id candidates, {guard: (min instances, effects-or-ALL)}, extra effect calls, properties
 ROWS = [
@@ -349,7 +401,7 @@ def run(facts, rep, prop):
             continue
         body = facts.body(row["fn"])  # ANCHOR-MISSING -> CheckBroken
         n_fn += 1
-        effects = find_effects(body, row.get("extra"))
+        effects = find_effects(body, row.get("extra"), facts)
         short = row["fn"].split("::", 1)[1]
         if len(effects) < row["min_effects"]:
             raise CheckBroken(
@@ -361,7 +413,7 @@ def run(facts, rep, prop):
         for (name, b, i, site) in effects:
             eff_blocks.setdefault(b, []).append((name, i, site))
         for gname, (minc, subset) in row["guards"].items():
-            found = GUARDS[gname](body, facts)
+            found = GUARDS[gname](body, facts) + guards_via_helper(body, facts, gname)
             # de-duplicate by switch block
             uniq = {}
             for (sw, desc, site) in found:
